@@ -931,6 +931,48 @@ def corpus_cases():
     return out
 
 
+KNOWN_D40 = "C15:dead-layer:monitors-still-listed"
+
+
+def dead_layer_probe(ex) -> None:
+    """a layer whose cells are all registered dies WITHOUT del_cell (drop the last reference and collect): the property's
+    listing clause says the trainer's cell and monitor listings reflect exactly what is registered, and switching the trainer
+    between eval and train must keep working"""
+    import gc
+    from inferno.learn import STDP
+    for tname in ("STDP",):
+        def mkconn(n):
+            conn = LinearDense((n,), (2,), 1.0, synapse=DeltaCurrent.partialconstructor(100.0))
+            conn.updater = conn.defaultupdater()
+            return conn
+        layer = Biclique([("c0", mkconn(3)), ("c1", mkconn(4))],
+                         [("n0", LIF((2,), 1.0, rest_v=-60.0, reset_v=-65.0, thresh_v=-50.0, refrac_t=2.0, time_constant=20.0,
+                                     resistance=1.0))])
+        tr = STDP(1e-3, -1e-3, 20.0, 20.0)
+        for cn in ("c0", "c1"):
+            tr.register_cell(cn, layer.cells_[cn]["n0"])
+        tr.train()
+        del layer
+        gc.collect()
+        ex.evaluations += 1
+        ncells = len(list(tr.named_cells))
+        nmons = len(list(tr.named_monitors))
+        raised = None
+        try:
+            tr.eval()
+            tr.train()
+        except Exception as e:  # noqa: BLE001
+            raised = f"{type(e).__name__}: {str(e)[:120]}"
+        if ncells == 0 and (nmons != 0 or raised):
+            ex.findings.append(Finding(
+                kind="spec", key=KNOWN_D40,
+                what=(f"{tname} trainer, every cell of a Biclique registered, then the layer is dropped and collected without del_cell: "
+                      f"named_cells lists {ncells} cells but named_monitors still lists {nmons} monitors"
+                      + (f"; trainer.eval(); trainer.train() then raises {raised}" if raised else "")),
+                case={"ops": ["trainer STDP", "register c0:n0", "register c1:n0", "train", "drop layer + gc.collect()", "eval", "train"],
+                      "named_cells": ncells, "named_monitors": nmons, "raised": raised}))
+
+
 def explore(ctx) -> Exploration:
     torch.set_default_dtype(torch.float32)
     ex = Exploration()
@@ -964,6 +1006,7 @@ def explore(ctx) -> Exploration:
         if is_death(c):
             ex.count("reregistration_after_cell_death", reregistration_kind(c))
     run_cases(ctx, cases, ex)
+    dead_layer_probe(ex)
     ex.rule = ("cases = corpus + 4 scripted scenarios (D17: deleting one of two cells that share pooled monitors, on shared neuron "
                "and on shared connection; D18: second trainer on a cell, then its deletion) + seeded random programs (length <= 40) "
                "over the ten operations with 1-3 trainers (STDP, MSTDP, MSTDPET) on Biclique layers with 2-4 cells sharing "
